@@ -345,6 +345,7 @@ type loopInfo struct {
 	backs   []*ssa.BasicBlock
 	ordinal int
 	precise []preciseTarget
+	locksAtHead string // the lock ghost state at the loop head (every iteration must come back with the same)
 }
 
 type retInfo struct {
